@@ -84,7 +84,12 @@ REQS = [
     b"OPTIONS * HTTP/1.1\r\n\r\n",
     b"BAD LINE\r\n\r\n",
     b"POST /big HTTP/1.1\r\nContent-Length: 20000\r\n\r\n" + b"z" * 20000,
+    # chunked bodies with a trailer section (one field, two fields): the bytes after the trailer's final CRLF belong to the
+    # next pipelined request (seeded change C21-4: a stale search offset in _dataReceived_TRAILER swallowed them)
+    b"PUT /t1 HTTP/1.1\r\nTransfer-Encoding: chunked\r\n\r\n3\r\nabc\r\n0\r\nX-Trailer: value\r\n\r\n",
+    b"PUT /t2 HTTP/1.1\r\nTransfer-Encoding: chunked\r\n\r\n2\r\nhi\r\n0\r\nA: 1\r\nLonger-Trailer: some value\r\n\r\n",
 ]
+TRAILERS = REQS[10:12]
 
 
 # header fields the server itself reads on the way of a request (access log: Referer / User-Agent; cookies; form
@@ -112,9 +117,17 @@ def _request(rng):
 
 
 def _history(rng):
-    stream = b"".join(_request(rng) for _ in range(rng.choice([1, 2, 2, 3, 4, 5])))
+    reqs = [_request(rng) for _ in range(rng.choice([1, 2, 2, 3, 4, 5]))]
+    if rng.random() < 0.15:
+        reqs.insert(rng.randrange(len(reqs)), rng.choice(TRAILERS))     # a trailer section with a request behind it
+    stream = b"".join(reqs)
     n = len(stream)
     cuts = sorted(set(rng.randrange(1, n) for _ in range(rng.choice([0, 1, 2, 4])))) if n > 1 else []
+    for r in reqs:
+        if r in TRAILERS and rng.random() < 0.7:
+            # cut inside the trailer section (inside a field line, or between the fields and the final CRLF)
+            at = stream.index(r) + r.index(b"0\r\n") + 3
+            cuts = sorted(set(cuts) | {rng.randrange(at + 1, stream.index(r) + len(r))})
     ops = ["d" + H.hx(c) for c in H.chunks_of(stream, cuts)]
     extra = ["f"] * rng.choice([0, 1, 2, 4, 6]) + ["p", "r"] * rng.choice([0, 0, 1, 2]) + ["x"] * rng.choice([0, 0, 0, 1, 1, 2])
     for e in extra:
